@@ -163,7 +163,7 @@ func lemmaSum20(s string) {
 //@   requires upc != nil && upc.PacketConn != nil && len(b) <= 65507
 //@   requires upc.boundAddr == nil || (0 <= upc.boundAddr.Port && upc.boundAddr.Port <= 65535)
 //@   requires typeIs(addr, *net.UDPAddr) ==> addr.(*net.UDPAddr) != nil && 0 <= addr.(*net.UDPAddr).Port && addr.(*net.UDPAddr).Port <= 65535
-//@   after `pkt := udp4pkt(b, udpAddr, src)` assert[frame] len(pkt) == 28 + len(b) && string(pkt)[28:] == string(b) && ipHdrOK(string(pkt), len(b), string(src.IP), string(udpAddr.IP)) && udpHdrOK(string(pkt), len(b), src.Port, udpAddr.Port, specSum16(specAddr4(string(src.IP)), 0), specSum16(specAddr4(string(udpAddr.IP)), 0), specSum16(string(b), 0))
+//@   after `pkt := udp4pkt(b, udpAddr, src)` claim[frame] len(pkt) == 28 + len(b) && string(pkt)[28:] == string(b) && ipHdrOK(string(pkt), len(b), string(src.IP), string(udpAddr.IP)) && udpHdrOK(string(pkt), len(b), src.Port, udpAddr.Port, specSum16(specAddr4(string(src.IP)), 0), specSum16(specAddr4(string(udpAddr.IP)), 0), specSum16(string(b), 0))
 
 // ReadFrom: every read offers the underlying connection a buffer that holds the largest frame whose payload fits b;
 // a frame is delivered only if it is a well-formed IPv4/UDP datagram (version 4, header length >= 20 and <= total length
@@ -173,14 +173,14 @@ func lemmaSum20(s string) {
 //@ contract (*BroadcastRawUDPConn).ReadFrom
 //@   requires upc != nil && upc.PacketConn != nil
 //@   modifies b
-//@   after `n, _, err := upc.PacketConn.ReadFrom(pkt)` assert[buffer] len(pkt) == 68 + len(b)
-//@   after `srcAddr := &net.UDPAddr{` assert[acc-len] n >= 20 && n <= len(pkt)
-//@   after `srcAddr := &net.UDPAddr{` assert[acc-version] int(pkt[0])/16 == 4
-//@   after `srcAddr := &net.UDPAddr{` assert[acc-hlen] int(pkt[0])%16*4 >= 20 && int(pkt[0])%16*4 <= specWord(string(pkt), 2) && specWord(string(pkt), 2) <= n
-//@   after `srcAddr := &net.UDPAddr{` assert[acc-proto] int(pkt[9]) == 17
-//@   after `srcAddr := &net.UDPAddr{` assert[acc-udp] n - int(pkt[0])%16*4 >= 8
-//@   after `srcAddr := &net.UDPAddr{` assert[acc-unread] len(buf.Buffer.data) == n - int(pkt[0])%16*4 - 8
-//@   after `return copy(b, buf.Consume(dhcpLen)), srcAddr, nil` assert[acc-payload] dhcpLen == specWord(string(pkt), 2) - int(pkt[0])%16*4 - 8 && dhcpLen >= 0
-//@   after `srcAddr := &net.UDPAddr{` assert[acc-port] upc.boundAddr != nil ==> upc.boundAddr.Port == specWord(string(pkt), int(pkt[0])%16*4+2)
+//@   after `n, _, err := upc.PacketConn.ReadFrom(pkt)` claim[buffer] len(pkt) == 68 + len(b)
+//@   after `srcAddr := &net.UDPAddr{` claim[acc-len] n >= 20 && n <= len(pkt)
+//@   after `srcAddr := &net.UDPAddr{` claim[acc-version] int(pkt[0])/16 == 4
+//@   after `srcAddr := &net.UDPAddr{` claim[acc-hlen] int(pkt[0])%16*4 >= 20 && int(pkt[0])%16*4 <= specWord(string(pkt), 2) && specWord(string(pkt), 2) <= n
+//@   after `srcAddr := &net.UDPAddr{` claim[acc-proto] int(pkt[9]) == 17
+//@   after `srcAddr := &net.UDPAddr{` claim[acc-udp] n - int(pkt[0])%16*4 >= 8
+//@   after `srcAddr := &net.UDPAddr{` claim[acc-unread] len(buf.Buffer.data) == n - int(pkt[0])%16*4 - 8
+//@   after `call:copy` claim[acc-payload] dhcpLen == specWord(string(pkt), 2) - int(pkt[0])%16*4 - 8 && dhcpLen >= 0
+//@   after `srcAddr := &net.UDPAddr{` claim[acc-port] upc.boundAddr != nil ==> upc.boundAddr.Port == specWord(string(pkt), int(pkt[0])%16*4+2)
 //@   ensures[count] err == nil ==> 0 <= result0 && result0 <= len(b)
 //@   ensures[addr] err == nil ==> result1 != nil
